@@ -9,6 +9,8 @@ CLAIMED = {
 }
 CLAIMED["C03"] = ("reference-model monitor: op[index] and diagonal() for index tuples drawn from the property's grammar on every class and nestings, compared with torch indexing of the dense matrix; explicit not-supported errors accepted; failing cases shrunk before fingerprinting",
                   "runtime monitoring: reference-model monitor (torch indexing of the dense denotation) with case shrinking")
+CLAIMED["C17"] = ("history checker: random well-nested construct/enter/exit/exception-exit histories over every settings class; after every event the public value of every setting is compared with a scoped-stack model, and a computation outside the block is compared before/after; every other property's worker additionally asserts 'all settings at defaults' after each case",
+                  "runtime monitoring: event-history checker against a scoped-stack model of the settings")
 PENDING = {}
 def main():
     hooks_commits = []
